@@ -1003,6 +1003,8 @@ class SSHConnection(SSHPacketHandler, asyncio.Protocol):
         self._agent: Optional[SSHAgentClient] = None
 
         self._auth: Optional[Auth] = None
+        self._auth_task: Optional['asyncio.Task[None]'] = None
+        self._auth_begun = False
         self._auth_in_progress = False
         self._auth_complete = False
         self._auth_final = False
@@ -2513,45 +2515,60 @@ class SSHConnection(SSHPacketHandler, asyncio.Protocol):
             if self._auth_final:
                 raise ProtocolError('Unexpected userauth request')
         else:
+            # A new auth request abandons any earlier request which is
+            # still being processed, so it can never complete on behalf
+            # of the user name in this request
+            if self._auth:
+                self._auth.cancel()
+                self._auth = None
+
+            if self._auth_task:
+                self._auth_task.cancel()
+                self._auth_task = None
+
             if username != self._username:
                 self.logger.info('Beginning auth for user %s', username)
 
                 self._username = username
-                begin_auth = True
-            else:
-                begin_auth = False
+                self._auth_begun = False
 
-            self.create_task(self._finish_userauth(begin_auth, method, packet))
+            self._auth_task = self.create_task(
+                self._finish_userauth(username, method, packet))
 
-    async def _finish_userauth(self, begin_auth: bool, method: bytes,
+    async def _finish_userauth(self, username: str, method: bytes,
                                packet: SSHPacket) -> None:
         """Finish processing a user authentication request"""
 
         if not self._owner: # pragma: no cover
             return
 
-        if begin_auth:
+        if not self._auth_begun:
             # This method is only in SSHServerConnection
             # pylint: disable=no-member
             await cast(SSHServerConnection, self).reload_config()
 
-            result = cast(SSHServer, self._owner).begin_auth(self._username)
+            result = cast(SSHServer, self._owner).begin_auth(username)
 
             if inspect.isawaitable(result):
                 result = await cast(Awaitable[bool], result)
 
+            self._auth_begun = True
+
             if not result:
+                self._auth_task = None
                 await self.send_userauth_success()
                 return
+
+        self._auth_task = None
 
         if not self._owner: # pragma: no cover
             return
 
-        if self._auth:
+        if self._auth: # pragma: no cover
             self._auth.cancel()
 
         self._auth = lookup_server_auth(cast(SSHServerConnection, self),
-                                             self._username, method, packet)
+                                             username, method, packet)
 
     def _process_userauth_failure(self, _pkttype: int, _pktid: int,
                                   packet: SSHPacket) -> None:
